@@ -40,9 +40,15 @@ def shards(tier):
 
 @st.composite
 def case_st(draw):
-    variant = draw(st.sampled_from(["plain", "files", "includes"]))
-    opts = {"plain": dict(max_files=1), "files": dict(max_files=3), "includes": dict(max_files=2, includes=True)}[variant]
-    prog = draw(gen.program_st(const_addr=True, const_label_diff=True, locals=True, skip=True, **opts))
+    variant = draw(st.sampled_from(["plain", "files", "includes", "reuse"]))
+    if variant == "reuse":
+        # the C11 generator: the same few names private in several files, exported from others, local numbers reused
+        from . import c11
+        prog = draw(c11.c11_program())
+        prog.setdefault("meta", {})
+    else:
+        opts = {"plain": dict(max_files=1), "files": dict(max_files=3), "includes": dict(max_files=2, includes=True)}[variant]
+        prog = draw(gen.program_st(const_addr=True, const_label_diff=True, locals=True, skip=True, **opts))
     # choose new positions for the definitions of each file
     moves = {}
     for path, stmts in prog["files"].items():
